@@ -46,7 +46,11 @@ where
     let mut accumulated_slack = Probability::zero();
 
     Ok(probabilities.iter().map(move |probability_float| {
-        let left_cumulative = (cumulative_float * scale).as_() + accumulated_slack;
+        // Clamp the non-leaky part to `free_weight`: due to rounding errors (in particular
+        // with `F = f32`), `cumulative_float * scale` can slightly exceed `free_weight`, which
+        // would leave no probability mass for the last symbol(s) or even overflow.
+        let non_leaky: Probability = (cumulative_float * scale).as_();
+        let left_cumulative = non_leaky.min(free_weight) + accumulated_slack;
         cumulative_float = cumulative_float + *probability_float;
         accumulated_slack = accumulated_slack.wrapping_add(&Probability::one());
         left_cumulative
